@@ -8,6 +8,7 @@ import (
 	"os/exec"
 	"path/filepath"
 	"regexp"
+	"runtime"
 	"strconv"
 	"strings"
 	"sync"
@@ -192,13 +193,14 @@ func (c ccall) String() string {
 	return c.Op
 }
 
-func (e *cenv) call(p int, c ccall, rng *rand.Rand) {
+func (e *cenv) call(p int, c ccall, rng *rand.Rand) (o cop) {
 	defer func() {
 		if r := recover(); r != nil {
-			e.record(cop{P: p, Op: c.Op, Inv: e.clock.Add(1), Ret: e.clock.Add(1), Err: "Panic", Errs: fmt.Sprint(r)})
+			o = cop{P: p, Op: c.Op, Inv: e.clock.Add(1), Ret: e.clock.Add(1), Err: "Panic", Errs: fmt.Sprint(r)}
+			e.record(o)
 		}
 	}()
-	o := cop{P: p, Op: c.Op, Off: c.Off, Max: c.Max, Key: c.Key, T: c.T, S: c.S}
+	o = cop{P: p, Op: c.Op, Off: c.Off, Max: c.Max, Key: c.Key, T: c.T, S: c.S}
 	switch c.Op {
 	case "publish":
 		b := e.batch(c.N, rng)
@@ -278,6 +280,7 @@ func (e *cenv) call(p int, c ccall, rng *rand.Rand) {
 		o.Err, o.Errs = errClass(err), errStr(err)
 	}
 	e.record(o)
+	return o
 }
 
 // segDelete: offset sets shaped after the segment layout (first and last of a segment with survivors, a whole
@@ -369,6 +372,69 @@ func freeRun(id int, seed int64, root string) (*chist, error) {
 	e.cursorScan(9, rng)
 	e.l.Close()
 	return &chist{ID: id, Kind: "free", What: fmt.Sprintf("%d goroutines x %d calls", P, M), Keys: true, Times: true, Init: init, Ops: e.ops}, nil
+}
+
+// tailRun: one publisher and consumers that tail the log, each polling at the offset its last call returned and
+// released just before every Publish call, so that their calls overlap the appends: a skipped, repeated or
+// half-visible batch leaves a history with no linearization.
+func tailRun(id int, seed int64, root string) (*chist, error) {
+	rng := rand.New(rand.NewSource(seed*65537 + int64(id)))
+	e, init, err := prepLog(filepath.Join(root, fmt.Sprintf("c8-%d", id)), rng, id)
+	if err != nil {
+		return nil, err
+	}
+	defer os.RemoveAll(e.dir)
+	C := 2 + rng.Intn(2)
+	NP := 9 + rng.Intn(6)
+	per := (58 - NP) / C
+	var pubSeq atomic.Int64
+	var done atomic.Bool
+	var wg sync.WaitGroup
+	for p := 1; p <= C; p++ {
+		wg.Add(1)
+		prng := rand.New(rand.NewSource(seed*131 + int64(id)*17 + int64(p)))
+		go func(p int) {
+			defer wg.Done()
+			off := init.Next
+			byKey := p == C && id%3 == 0
+			key := concKeys[prng.Intn(len(concKeys))]
+			seen := int64(0)
+			for i := 0; i < per; i++ {
+				for pubSeq.Load() == seen && !done.Load() {
+					runtime.Gosched()
+				}
+				fin := done.Load()
+				seen = pubSeq.Load()
+				for spin := prng.Intn(400); spin > 0; spin-- {
+					_ = pubSeq.Load()
+				}
+				var o cop
+				if byKey {
+					o = e.call(p, ccall{Op: "consumebykey", Key: key, Off: off, Max: 4}, prng)
+				} else {
+					o = e.call(p, ccall{Op: "consume", Off: off, Max: 4}, prng)
+				}
+				if o.Err != "" {
+					return
+				}
+				off = o.Next
+				if fin && len(o.Msgs) == 0 {
+					return
+				}
+			}
+		}(p)
+	}
+	for i := 0; i < NP; i++ {
+		pubSeq.Add(1)
+		e.call(0, ccall{Op: "publish", N: 1 + rng.Intn(2)}, rng)
+		for spin := rng.Intn(2000); spin > 0; spin-- {
+			_ = pubSeq.Load()
+		}
+	}
+	done.Store(true)
+	wg.Wait()
+	e.l.Close()
+	return &chist{ID: id, Kind: "tail", What: fmt.Sprintf("1 publisher x %d, %d tailing consumers", NP, C), Keys: true, Times: true, Init: init, Ops: e.ops}, nil
 }
 
 // ---- window placement
@@ -545,7 +611,9 @@ func c08Worker(args []string) int {
 		var h *chist
 		var err error
 		fmt.Fprintf(os.Stderr, "C08-HIST %d\n", i)
-		if i < nfree {
+		if i < nfree && i%3 == 2 {
+			h, err = tailRun(i, seed, root)
+		} else if i < nfree {
 			h, err = freeRun(i, seed, root)
 		} else if i < nfree+nplace {
 			h, err = placement(i, seed, root)
